@@ -9,6 +9,7 @@ use rand::SeedableRng;
 use rand_chacha::ChaCha8Rng;
 use std::io::Write;
 
+mod auth;
 mod c02;
 mod c06;
 mod c07;
@@ -95,6 +96,9 @@ fn main() {
     match prop.as_str() {
         "C20" => c20::run(&mut ctx),
         "C02" => c02::run(&mut ctx),
+        "C03" => auth::run_c03(&mut ctx),
+        "C04" => auth::run_c04(&mut ctx),
+        "C05" => auth::run_c05(&mut ctx),
         "C06" => c06::run(&mut ctx),
         "C07" => c07::run(&mut ctx),
         "C09" => c09::run(&mut ctx),
